@@ -1,6 +1,6 @@
 """C03 - results returned to the caller are exactly what the server sent."""
 from facts import walk, callee_of, call_args, loc
-import hirq, anchors, absx
+import sem, hirq, anchors, absx
 
 EXPLANATION = ("T1 path-sensitive extraction of LdapResultExt::from: on every success path resultCode = parse_uint of child 0 required "
                "universal ENUMERATED primitive, matchedDN = UTF-8 of child 1, diagnosticMessage = UTF-8 of child 2; the dispatch table "
@@ -68,61 +68,61 @@ def run(ctx):
         ctx.add('T1.ctrls-empty', 'ctrls', loc(B.root), rf.get('ctrls') == ('vec', ()),
                 'LdapResultExt::from must leave ctrls empty (the envelope controls are added by op_call)')
     ctx.floor('T1', 'success paths of the LDAPResult decoder', n_struct, 1)
-    # dispatch table: structural, from the match on `.id` in the component loop
-    tables = [n for n, c in walk(B.root) if n['k'] == 'Match' and hirq.peel_refs(n['scrut'])['k'] == 'Field' and hirq.peel_refs(n['scrut'])['name'] == 'id'
-              and any(hirq.pat_lits(a['pat']) for a in n['arms'])]
-    ctx.add('T1.dispatch-table', FROM, loc(B.root), len(tables) == 1, 'expected one dispatch on the component tag, found %d' % len(tables))
-    # which local feeds which returned field
-    ret_struct = [n for n, c in walk(B.root) if n['k'] == 'Call' and hirq.short_def(n['f'].get('ctor_of') or '') == 'result::LdapResultExt']
-    feeds = {}
-    for rs in ret_struct:
-        if len(rs['args']) == 3 and rs['args'][0]['k'] == 'Struct' and rs['args'][0]['fields'] and len(rs['args'][0]['fields']) >= 4 \
-                and hirq.local_of([x['e'] for x in rs['args'][0]['fields'] if x['name'] == 'refs'][0]) is not None:
-            a0, a1, a2 = rs['args']
-            for fl in a0['fields']:
-                if fl['name'] == 'refs':
-                    feeds[hirq.local_of(fl['e'])] = 'refs'
-            if a1['k'] == 'Struct':
-                for fl in a1['fields']:
-                    feeds[hirq.local_of(fl['e'])] = {'name': 'exop_name', 'val': 'exop_val'}.get(fl['name'])
-            if a2['k'] == 'Call' and a2['args']:
-                feeds[hirq.local_of(a2['args'][0])] = 'sasl_creds'
-    for t in tables:
-        comp = hirq.local_of(hirq.peel_refs(t['scrut'])['e'])
-        got = {}
-        for a in t['arms']:
-            lits = hirq.pat_lits(a['pat'])
-            if lits is None:
-                eff = [n for n, c in walk(a['body']) if n['k'] in ('Assign', 'MethodCall', 'Call')]
-                ctx.add('T1.dispatch-default', 'other tags', loc(a['body']), not eff, 'unknown component tags must be ignored')
+    # dispatch table, decided by evaluating the decoder once per component tag number (finite partition: the numbers it compares
+    # with and representatives of the rest): the component loop is run on one generic trailing component whose tag is that
+    # number, and what is read off is which field of the returned value receives (something computed from) that component
+    nums = set()
+    for n, c in walk(B.root):
+        if n['k'] == 'Match':
+            for a in n['arms']:
+                for v in (hirq.pat_lits(a['pat']) or ()):
+                    if isinstance(v, int):
+                        nums.add(v)
+        if n['k'] == 'Lit' and isinstance(n.get('v'), int) and not isinstance(n.get('v'), bool) and 0 <= n['v'] < 64:
+            nums.add(n['v'])
+    domain = sorted(nums | set(RFC4511_RESULT_TAGS) | {0, 1, 2, 4, 5, 6, 8, 9, 12, 30})
+    is_elem = lambda x: x[0] == 'elem'
+    n_eval = 0
+    for tagno in domain:
+        def hook(base, name, st, tagno=tagno):
+            if name == 'id' and base[0] == 'elem':
+                return ('lit', tagno)
+            return None
+        got = set()
+        vias = {}
+        for o in absx.Interp(f, B, unroll=1, for_once=True, field_hook=hook).run():
+            if not (o.kind in ('val', 'ret') and o.val[0] == 'ctor' and o.val[1].endswith('LdapResultExt')) or any(t and a[0] == 'is' and a[2] == 'Tag::Null' for a, t in o.st.pc):
                 continue
-            target = None
-            via = []
-            for n, c in walk(a['body']):
-                if n['k'] == 'Assign':
-                    target = feeds.get(hirq.local_of(n['l']))
-                    via = [x['name'] for x, _ in walk(n['r']) if x['k'] == 'MethodCall'] + [(callee_of(x) or '').rsplit('::', 1)[-1] for x, _ in walk(n['r']) if x['k'] == 'Call']
-                    uses = [x for x, _ in walk(n['r']) if x['k'] == 'Path' and x.get('bind') == comp]
-                    if not uses:
-                        target = None
-                if n['k'] == 'MethodCall' and n['name'] == 'extend':
-                    target = feeds.get(hirq.local_of(n['recv']))
-                    via = [(callee_of(x) or '').rsplit('::', 1)[-1] for x, _ in walk(n) if x['k'] == 'Call']
-                    if not [x for x, _ in walk(n) if x['k'] == 'Path' and x.get('bind') == comp]:
-                        target = None
-            for v in lits:
-                got[v] = (target, via)
-        for tag in sorted(set(got) | set(RFC4511_RESULT_TAGS)):
-            exp = RFC4511_RESULT_TAGS.get(tag)
-            g = got.get(tag, (None, []))
-            ok = g[0] == exp and exp is not None
-            if exp == 'refs':
-                ok = ok and 'parse_refs' in g[1]
-            elif exp in ('sasl_creds', 'exop_val'):
-                ok = ok and 'expect_primitive' in g[1] and 'from_utf8' not in g[1]
-            elif exp == 'exop_name':
-                ok = ok and 'expect_primitive' in g[1] and 'from_utf8' in g[1]
-            ctx.add('T1.dispatch-entry', '[%d]' % tag, loc(t), ok, 'component [%d] feeds %s via %s; RFC 4511: %s' % (tag, g[0], g[1], exp))
+            n_eval += 1
+            res, exop, creds = o.val[2]
+            fields = {'refs': struct_fields(res).get('refs', ('unk',)), 'exop_name': struct_fields(exop).get('name', ('unk',)),
+                      'exop_val': struct_fields(exop).get('val', ('unk',)), 'sasl_creds': creds}
+            for other in ('rc', 'matched', 'text', 'ctrls'):
+                if sem.has(struct_fields(res).get(other, ('unk',)), is_elem):
+                    got.add(other)
+            for k, t in fields.items():
+                # the accumulator carried around the loop may itself mention earlier components: look at what this iteration adds
+                if sem.has(t, is_elem):
+                    got.add(k)
+                    vias[k] = calls_in(t)
+            for e in o.st.ev:
+                if e[0] == 'call' and e[1].rsplit('::', 1)[-1] in ('extend', 'push', 'append') and any(sem.has(a, is_elem) for a in e[2][1:]):
+                    got.add('refs' if sem.has(fields['refs'], lambda x: True) and e[2][0] == fields['refs'] or True else 'refs')
+                    vias['refs'] = [c for a in e[2][1:] for c in calls_in(a)]
+        exp = RFC4511_RESULT_TAGS.get(tagno)
+        if exp is None:
+            ctx.add('T1.dispatch-default', 'tag %d' % tagno, loc(B.root), not got, 'a trailing component with tag [%d] (not defined for LDAPResult) changes %s' % (tagno, sorted(got)))
+            continue
+        via = vias.get(exp, [])
+        ok = got == {exp}
+        if exp == 'refs':
+            ok = ok and 'parse_refs' in via
+        elif exp in ('sasl_creds', 'exop_val'):
+            ok = ok and 'expect_primitive' in via and 'from_utf8' not in via
+        elif exp == 'exop_name':
+            ok = ok and 'expect_primitive' in via and 'from_utf8' in via
+        ctx.add('T1.dispatch-entry', '[%d]' % tagno, loc(B.root), ok, 'component [%d] feeds %s via %s; RFC 4511: %s' % (tagno, sorted(got), via, exp))
+    ctx.floor('T1', 'decoder evaluations over component tags', n_eval, len(domain))
 
     # ------------------------------------------------------------------ T2
     C = anchors.Conn(f)
@@ -263,6 +263,12 @@ def run(ctx):
                 for a in n['arms']:
                     for v in (hirq.pat_lits(a['pat']) or []):
                         consts.add(v)
+            # named constants, in expression or pattern position
+            for d in [n.get('def')] + ([x['e'].get('def') for x in ([n['pat']] + n['pat'].get('pats', [])) if x.get('k') == 'PExpr'] if n.get('k') == 'LetExpr' else []):
+                if d and str(n.get('defkind') or 'Const').startswith(('Const', 'AssocConst')) or (d and n.get('k') == 'LetExpr'):
+                    v = hirq.const_eval(f, {'k': 'Path', 'res': 'def', 'defkind': 'Const', 'def': d})
+                    if isinstance(v, int) and not isinstance(v, bool):
+                        consts.add(v)
     partition = sorted(consts | {c + d for c in consts for d in (-1, 1) if c + d >= 0} | {0, 1, 2, 3, 4, 5, 6, 7, 10, 11, 80, 88, 255, 4294967295})
     for p, table in HELPERS.items():
         Bh = hirq.Body(f, f.body(p))
@@ -272,7 +278,8 @@ def run(ctx):
         for n, c in walk(Bh.root):
             if n['k'] == 'Field' and n['name'] == 'rc':
                 anc, role = c[-1]
-                if not ((anc['k'] == 'Binary' and anc['op'] in ('Eq', 'Ne')) or (anc['k'] == 'Match' and role == 'scrut')):
+                if not ((anc['k'] == 'Binary' and anc['op'] in ('Eq', 'Ne', 'Lt', 'Le', 'Gt', 'Ge')) or (anc['k'] == 'Match' and role == 'scrut')
+                        or (anc['k'] == 'LetExpr' and role == 'init')):
                     bad_use.append(anc['k'] + ':' + str(anc.get('op')))
         ctx.add('T4.comparison-only', p, loc(Bh.root), not bad_use, 'the result code is used other than in ==/match comparisons (%s): the finite partition is not exact' % bad_use)
         wrong = []
